@@ -346,6 +346,9 @@ func (s *pState) render(cw *cwriter.Writer) (err error) {
 			close(s.iterDrop)
 			return err
 		}
+		// the cursor rests on the line below the last row, so one line of
+		// the terminal must stay free or the top row scrolls off the screen
+		height--
 	} else {
 		if s.reqWidth > 0 {
 			width = s.reqWidth
